@@ -298,7 +298,10 @@ class PowerScalar(Contract):
             o = Poly(ctx, ctx.fresh("acc"), shape=x1.shape, region=Region("fresh", "accumulator"))
             ctx.assume(o.wf(ctx))
             env["out"] = o
-        return {1: LoopSpec(inv, havoc, modifies=("out", "_"))}
+        def ghost(ex, env, k):
+            from engine.logic import unfold_at
+            return [unfold_at(k)]
+        return {1: LoopSpec(inv, havoc, modifies=("out", "_"), ghost=ghost)}
 
     def cases(self):
         def make_env(ex):
@@ -308,7 +311,10 @@ class PowerScalar(Contract):
             PVs = ps[0].val(z3.Const("i0", Idx)).sort()
             v, k = z3.Const(ctx.fresh("v"), PVs), z3.Int(ctx.fresh("k"))
             ctx.assume(z3.ForAll([v], ppow(v, 0) == pone))
-            ctx.assume(z3.ForAll([v, k], z3.Implies(k >= 0, ppow(v, k + 1) == pmul(ppow(v, k), v)), patterns=[ppow(v, k + 1)]))
+            from engine.logic import unfold_at
+            # (unfolds only at marked k: a bare pattern ppow(v, k+1) would re-trigger on the ppow(v, k) it creates)
+            ctx.assume(z3.ForAll([v, k], z3.Implies(k >= 0, ppow(v, k + 1) == pmul(ppow(v, k), v)),
+                                 patterns=[z3.MultiPattern(ppow(v, k + 1), unfold_at(k))]))
             e = ctx.int("exponent")
             ctx.assume(e >= 0)
             ex.e = e
@@ -377,7 +383,10 @@ class ProdAlongAxis(Contract):
             o = Poly(ctx, ctx.fresh("acc"), shape=ex.g["S1"], region=Region("fresh", "accumulator"))
             ctx.assume(o.wf(ctx))
             env["out"] = o
-        return {1: LoopSpec(inv, havoc, modifies=("out", "idx"))}
+        def ghost(ex, env, k):
+            from engine.logic import unfold_at
+            return [unfold_at(k), unfold_at(k + 1)]
+        return {1: LoopSpec(inv, havoc, modifies=("out", "idx"), ghost=ghost)}
 
     def cases(self):
         for ax in (0, 1):
@@ -397,7 +406,9 @@ class ProdAlongAxis(Contract):
                 k, j = z3.Int(ctx.fresh("k")), z3.Const(ctx.fresh("j"), Idx)
                 sl = lambda k, j: A.val(imap(j, S, take_index(z3.IntVal(ax), k)))
                 ctx.assume(z3.ForAll([j], PP(1, j) == sl(0, j)))
-                ctx.assume(z3.ForAll([k, j], z3.Implies(k >= 1, PP(k + 1, j) == pmul(PP(k, j), sl(k, j))), patterns=[PP(k + 1, j)]))
+                from engine.logic import unfold_at
+                ctx.assume(z3.ForAll([k, j], z3.Implies(k >= 1, PP(k + 1, j) == pmul(PP(k, j), sl(k, j))),
+                                     patterns=[z3.MultiPattern(PP(k + 1, j), unfold_at(k))]))
                 ex.g = dict(S1=S1, PP=PP, ax=ax, n=extent(S, ax))
                 return {"a": A, "axis": ax}
 
